@@ -1,6 +1,7 @@
 package main
 
 import (
+	"crypto/rand"
 	"crypto/sha256"
 	"fmt"
 	"strings"
@@ -28,6 +29,36 @@ func init() {
 	// builtin: everything C16 documents, read through the public API of the built package
 	families["builtin"] = func(t *toks) string {
 		parts := []string{}
+		if len(t.rest) > 0 && t.next() == "used" {
+			// the built-ins of a process that has already used the package for other things (recipes with exclusions of
+			// their own, custom sets, word lists, every preset): they are constants, not a state
+			saved, savedReader := tape, rand.Reader
+			for _, r := range []spg.CharRecipe{
+				{Length: 6, Allow: spg.All, Exclude: spg.Ambiguous, ExcludeChars: "aeiouAEIOU"},
+				{Length: 6, Allow: spg.Letters, Require: spg.Digits | spg.Symbols, Exclude: spg.Symbols, ExcludeChars: "0123"},
+				{Length: 4, AllowChars: "xyz", RequireSets: []string{"!@", "ab"}, Exclude: spg.Lowers | spg.Uppers | spg.Digits, ExcludeChars: "*_"},
+				*spg.NewCharRecipe(9),
+			} {
+				rr := r
+				install([]chunk{{bs: make([]byte, 4096)}})
+				_, _ = rr.Generate()
+				_ = rr.Alphabet()
+				_ = rr.Entropy()
+				_ = rr.SuccessProbability()
+			}
+			if wl, err := spg.NewWordList([]string{"polish", "Polish", "x", "4"}); err == nil {
+				for _, sf := range []spg.SFFunction{spg.SFDigits1, spg.SFDigits2, spg.SFDigitsNoAmbiguous1, spg.SFDigitsNoAmbiguous2, spg.SFSymbols, spg.SFDigitsSymbols, spg.SFNone} {
+					install([]chunk{{bs: make([]byte, 4096)}})
+					wr := spg.NewWLRecipe(3, wl)
+					wr.SeparatorFunc, wr.Capitalize = sf, spg.CSRandom
+					_, _ = wr.Generate()
+					_ = wr.Entropy()
+				}
+			}
+			tape, rand.Reader = saved, savedReader
+			drain(capOut)
+			drain(capErr)
+		}
 		for _, f := range []spg.CTFlag{spg.Uppers, spg.Lowers, spg.Digits, spg.Symbols, spg.Ambiguous, spg.Letters, spg.All, spg.None} {
 			one := spg.CharRecipe{Length: 1, Allow: f} // a variable, so that the call compiles whatever the receiver kind
 			parts = append(parts, fmt.Sprintf("class%d=%s", uint32(f), hxs(one.Alphabet())))
